@@ -161,7 +161,7 @@ theorem ltOf_asymm (k : Nat) (a b : J) : ltOf k a b = true → ltOf k b a = fals
 theorem ltOf_total {k : Nat} (hk : k ≠ 0) {a b : J} (ha : typeCode a = k) (hb : typeCode b = k) :
     ltOf k a b = false → ltOf k b a = false → a = b := by
   subst ha
-  cases a <;> cases b <;> simp [typeCode] at hb hk ⊢ <;> simp [ltOf, typeCode]
+  cases a <;> cases b <;> simp [typeCode] at hb hk ⊢ <;> simp [ltOf]
   · rename_i x y; cases x <;> cases y <;> simp
   · intro h1 h2; omega
   · intro h1 h2; exact String.le_antisymm (String.not_lt.1 h2) (String.not_lt.1 h1)
